@@ -1,6 +1,6 @@
 PROPERTY = "C19"
 LEVEL = "proof"
-LEAN_MODULES = ["CifModel.Props.C19", "CifModel.Props.ReviewC19"]
+LEAN_MODULES = ["CifModel.Props.C19", "CifModel.Props.ReviewC19", "CifModel.Props.C19Hist"]
 REQUIRED = ["CifModel.C19_list_is_sequence", "CifModel.C19_table_is_map", "CifModel.C19_table_invalid_key",
             "CifModel.C19_table_history", "CifModel.C19_packet_is_map", "CifModel.C19_packet_create", "CifModel.C19_wrong_kind",
             "CifModel.C19_clone_equal", "CifModel.C19_reinit_result_independent", "CifModel.C19_reinit_releases",
@@ -11,7 +11,11 @@ REQUIRED = ["CifModel.C19_list_is_sequence", "CifModel.C19_table_is_map", "CifMo
             "CifModel.C19_remove_transfers_entry", "CifModel.C19_reinit_releases_heap", "CifModel.C19_capacity_growth",
             "CifModel.C16_map_heap_safe", "CifModel.C16_map_set_item_heap_safe", "CifModel.C16_map_remove_item_heap_safe",
             "CifModel.C16_cex_F10_pinned", "CifModel.C19_clone_onto_repaired", "CifModel.C19_set_replaces_in_place",
-            "CifModel.C16_packet_create_heap_safe", "CifModel.C16_get_keys_heap_safe", "CifModel.C19_clone_onto_heap", "CifModel.C19_reinit_heap"]
+            "CifModel.C16_packet_create_heap_safe", "CifModel.C16_get_keys_heap_safe", "CifModel.C19_clone_onto_heap", "CifModel.C19_reinit_heap",
+            # operation histories (group gM, Props/C19Hist.lean)
+            "CifModel.C19_history_heap", "CifModel.C19_history_owned", "CifModel.C19_history_release", "CifModel.C19_history_trace",
+            "CifModel.C19_step_heap", "CifModel.C19_clone_onto_member_heap", "CifModel.C19_list_history",
+            "CifModel.C19_nested_update_exact", "CifModel.C19_nested_putP_exact", "CifModel.C19_refs_distinct", "CifModel.C19_history_get"]
 GEN = ["ErrCodes", "ValueCols"]
 FAMILIES = ["val", "valheap"]
 TRUSTED_BASE = [
@@ -34,33 +38,37 @@ PARTIAL = [
     "clone equality and 'containers copy what is put in': the pure-level statements are definitional (clone = id on immutable "
     "trees); the statements with content are at heap level — C19_clone_reads_source (cloneH follows the source's pointers cell by "
     "cell and is proved to yield a disjoint structure representing the same value, source unchanged), C19_put_copies_addr / "
-    "C19_set_element_addr / C19_map_set_item_addr / C19_clone_onto_addr (the operations take the ADDRESS of the caller's object). "
-    "Limits: (i) set_element_at / map_set_item on an EXISTING member with a source INSIDE the member replaced: the member-level "
-    "statement is C19_clone_onto_addr (scratch copy first, any aliasing) for free-standing target objects (.val blocks) only — for "
-    "a target that is a list element the re-assembly of the enclosing list's representation, and for a target that is a map "
-    "entry's inline value the whole statement, are proved for sources OUTSIDE the container only; the aliased member cases are "
-    "carried by the pure theorem C19_clone_onto_repaired and by correspondence (val / valheap flavours alias-inside, "
-    "alias-ancestor, self-clone); (ii) mapSetItemAddrH takes the copy after releasing the old value where the C takes it "
-    "before: same heap for outside sources (mapSetItemAddrH_eq), the driver uses the C's order when the two could differ",
-    "operation HISTORIES: the only run theorem is C19_table_history (flat tables, pure level); for lists, nested paths and at heap "
-    "level every theorem is about ONE operation from any represented state (pre/post in terms of Rep, so the statements chain, "
-    "but the chaining is not itself a theorem); histories are exercised by families val / valheap (<= 300 operations)",
+    "C19_set_element_addr / C19_map_set_item_addr / C19_clone_onto_addr (the operations take the ADDRESS of the caller's object), "
+    "and — any target (free-standing object, list element, inline value of a map entry), any position of the source (inside the "
+    "target, around it, the target itself) — C19_clone_onto_member_heap and, re-assembled into the enclosing roots, C19_step_heap "
+    "for the operations lset / mset on an existing member / cln. (mapSetItemAddrH / listSetAddrH of the single-operation theorems "
+    "take the copy after releasing the old value; the history interpreter runH uses the C's order — scratch copy first — "
+    "throughout: Hist.cloneOntoAt)",
+    "operation HISTORIES are theorems now: C19_history_heap (for ALL op lists of the language Hist.HOp — new, bld, free, cln, init, "
+    "ichr, lget, lset, lins, lrem, mget, mset, mrem, pnew, pfree over 8 value and 4 packet slots, members by paths of any depth — the "
+    "state runH reaches from the empty heap is well-formed and represents the state runP reaches: every occupied slot an object "
+    "representing the pure value, footprints of different slots disjoint, every live block in exactly one footprint), "
+    "C19_history_release (releasing all slots then frees every block, each once), C19_list_history, C19_nested_update_exact "
+    "(pure level). The history theorems carry no fuel hypothesis: the interpreter computes the fuel of the pointer-following heap "
+    "functions from the heap (fuelOf h = 3*h.next + 9), which is proved sufficient (Rep_nodup, Rep_need, RepS.fitsAt: a footprint lists "
+    "each block once below the bump pointer). The pointer tests of the C (`src == dst`) are made on addresses by the heap interpretation and on references by the "
+    "pure one; C19_refs_distinct proves the two agree (different references designate different blocks). What the history theorems do "
+    "NOT say: (iii) cif_packet_create with two "
+    "names for one item leaves the model state as it was (the blocks it allocated and released again are not recorded; "
+    "C16_packet_create_heap_safe proves they are all released); (iv) allocation failures (C17) and "
+    "convert_to_standalone (unreachable) are outside the op language",
     "failure paths of the re-initialisers (cif_value_parse_numb / copy_char on invalid input leave the object as it was) are "
-    "modelled at pure level only (Model/Numb, C10); reinitH models the successful path",
-    "heap level: proved for clone (any depth; onto a fresh and onto an existing object incl. the aliasing cases), release (any "
-    "depth, shared key blocks included), list insert with capacity growth / set in place / remove with transfer of ownership, "
-    "members handed out by reference (C19_members_by_reference), "
-    "cif_map_set_item and cif_map_retrieve_item(do_remove) on whole standalone maps (refinement of the pure mapSet / mapErase), "
-    "cif_packet_create over a whole name list incl. the CIF_DUP_ITEMNAME refusal, cif_packet_free, get_keys, entry re-spelling "
-    "and detaching, the (re)initialisers (C19_reinit_releases). NOT stated at heap level: convert_to_standalone (unreachable "
-    "through the public API), allocation failures (property C17)",
-    "the heap model is tied to value.c / map.c / packet.c by family valheap: for every operation of the same random sequences "
+    "modelled at pure level only (Model/Numb, C10); reinitH / Hist.buildOntoAt model the successful path",
+    "the heap model is tied to value.c / map.c / packet.c by family valheap, whose driver EXECUTES Hist.traceH (= the runH states of "
+    "all prefixes, C19_history_trace): for every operation of the same random sequences "
     "(a) the change in the number of live blocks reported by the allocation tracker (harness/alloc.h) equals the change the heap "
     "model predicts (model cells + 2 blocks per non-empty uthash map), (b) a walk of the real structures from the slots reaches "
     "every live block exactly once (ownership: no orphan, no block owned twice), (c) the CONTENTS of all string blocks (texts, "
     "digit strings, su digit strings, normalised keys, original spellings) equal, as a multiset (count + sum of FNV-1a hashes), "
-    "the contents of the model's str cells, and everything is released at the end; tables grown past uthash's bucket "
-    "expansions (330-900 entries) are part of the stream. Not compared: addresses, the order of allocation, the scalar "
+    "the contents of the model's str cells, and everything is released at the end (Hist.releaseAll); tables grown past uthash's "
+    "bucket expansions (330-900 entries) are part of the stream. The pure interpretation runP is tied by family val: its driver runs "
+    "Hist.stepP next to the older interpreter and both must give the same state after every operation (`!hist` otherwise), and "
+    "that state's dump is compared with the library's. Not compared: addresses, the order of allocation, the scalar "
     "fields of the structs (kind, quoted, sign, scale, size, capacity: these are compared through the API by family val)",
 ]
 LEVEL_TEXT = ("Proof about an executable Lean model at two levels. Pure level: list operations are the sequence operations with exactly "
@@ -71,13 +79,19 @@ LEVEL_TEXT = ("Proof about an executable Lean model at two levels. Pure level: l
               "clone+release restores the heap; insert / set / map set take the address of the caller's object; members are handed "
               "out by reference and writing through the pointer is writing the container; re-initialisers release exactly the old "
               "footprint; releasing a value frees exactly its footprint, each block "
-              "once; insert copies; remove transfers ownership; the key/key_orig aliasing protocol of map entries (F10). Tied to the C "
+              "once; insert copies; remove transfers ownership; the key/key_orig aliasing protocol of map entries (F10). "
+              "Operation HISTORIES (Model/HeapHist: op language over 8 value + 4 packet slots, members by paths, sources by reference with "
+              "any aliasing): by induction over the op list, every state reachable from the empty heap is well-formed and represents the "
+              "pure state (each live block owned by exactly one slot), and releasing all slots frees every block once "
+              "(C19_history_heap, C19_history_release; one-step form from any represented state C19_step_heap); pure level: "
+              "C19_list_history, C19_nested_update_exact. Tied to the C "
               "by family val: random operation sequences on the real library under ASan/UBSan, compared step by step with the pure "
               "model and, independently, with a Python transcription of the documented contracts; and by family valheap: the same "
               "sequences with the allocation tracker on, the per-operation change in live heap blocks, the ownership of every live block and the contents of "
               "all string blocks compared with the heap model run on the sequence (the model's clone is cloneH, reading the source).")
 LEVEL_NOTE = ("Pure level proved in full. Heap level proved for every value / list / map / packet operation except the unreachable "
-              "convert_to_standalone and allocation failures (C17). The two defects this property found (F35 source inside the clone "
+              "convert_to_standalone and allocation failures (C17), for single operations and for whole histories (any op list, from "
+              "the empty heap; the interpreter the theorem is about is the one family valheap executes). The two defects this property found (F35 source inside the clone "
               "target / self-clone, F36 duplicate names in cif_packet_create) are repaired in the sources (f1b092b, c571e89); the "
               "model follows the repaired code, the pinned behaviour is kept as counterexample theorems (C19_cex_*_pinned). No open finding.")
 TECHNIQUE = "Lean 4 proof (refinement of an association list to an abstract map; induction over operation histories) + differential execution of random operation sequences under ASan"
